@@ -575,7 +575,7 @@ def repo_head():
     return head, dirty
 
 
-def write_replay(spec, verif_seed, idx, case, outcome_json, minimised_from=None, history=None, tier="quick"):
+def write_replay(spec, verif_seed, idx, case, outcome_json, minimised_from=None, history=None, tier="quick", history_indices=None, prewarm_workers=None):
     d = os.path.join(OUT, "replays")
     os.makedirs(d, exist_ok=True)
     sig_h = hashlib.sha256((outcome_json["sig"] or "").encode()).hexdigest()[:10]
@@ -593,6 +593,8 @@ def write_replay(spec, verif_seed, idx, case, outcome_json, minimised_from=None,
                 "digest": outcome_json["digest"],
                 "case": case,
                 "history": history or [],
+                "history_indices": history_indices,
+                "prewarm_workers": prewarm_workers,
                 "tier": tier,
                 "minimised_from_ops": minimised_from,
                 "repo_head": head,
@@ -613,7 +615,27 @@ def replay_file(path, quiet=False):
         rep = json.load(f)
     spec = get_spec(rep["property"])
     spec.setup(rep.get("verif_seed", DEFAULT_SEED), rep.get("tier", "quick"))
-    for prev in rep.get("history") or []:
+    hist_idx = rep.get("history_indices")
+    if hist_idx is not None:
+        # a violation that needs the worker process's earlier runs: repeat what
+        # that process did, in order — the parent's pre-warm, then generation
+        # (which itself runs repository code) and execution of each earlier run
+        spec.prewarm(rep["verif_seed"], rep.get("tier", "quick"), rep.get("prewarm_workers", 1))
+        for i, stored in zip(hist_idx, rep.get("history") or []):
+            prev = spec.generate(rng_for(rep["verif_seed"], spec.sim, spec.prop, i), i, rep.get("tier", "quick"))
+            if jdump(prev) != jdump(stored):
+                raise HarnessError("history replay: run %d regenerates differently from the stored case" % i)
+            try:
+                spec.guarded_execute(prev)
+            except OutOfScope:
+                pass
+        target = spec.generate(rng_for(rep["verif_seed"], spec.sim, spec.prop, rep["run_index"]), rep["run_index"], rep.get("tier", "quick"))
+        if jdump(target) != jdump(rep["case"]):
+            raise HarnessError("history replay: the failing run regenerates differently from the stored case")
+        # (the regenerated object, not its JSON copy: pure caches keyed on the
+        # case must hit exactly as they did in the worker)
+        rep = dict(rep, case=target)
+    for prev in ([] if hist_idx is not None else (rep.get("history") or [])):
         # earlier runs of the same process that the violation needs (the code
         # under test carried state from them); their own verdicts are not
         # judged here
@@ -660,6 +682,10 @@ def history_test_main(argv):
         job = json.load(f)
     spec = get_spec(job["property"])
     spec.setup(job["verif_seed"], job["tier"])
+    # the worker was forked from a parent that had pre-warmed its caches by
+    # running repository code: repeat that, so that this process starts from
+    # the same state of the code under test
+    spec.prewarm(job["verif_seed"], job["tier"], job.get("workers", 1))
     faulthandler.dump_traceback_later(1800, exit=True)
 
     def gen(i):
@@ -676,7 +702,7 @@ def history_test_main(argv):
     return 1 if hit else 0
 
 
-def history_fallback(spec, verif_seed, tier, sig, v, budget_s=900.0, max_tests=60):
+def history_fallback(spec, verif_seed, tier, sig, v, budget_s=900.0, max_tests=60, workers=1):
     """A violation that does not reproduce from its case alone may need the
     earlier runs of its worker process (the code under test kept
     process-global state: a memo cache, a mutated default, a class attribute).
@@ -698,7 +724,7 @@ def history_fallback(spec, verif_seed, tier, sig, v, budget_s=900.0, max_tests=6
     def test(idxs):
         tests[0] += 1
         with open(job_path, "w") as f:
-            json.dump({"property": spec.prop, "verif_seed": verif_seed, "tier": tier, "indices": idxs, "target_idx": v["idx"], "target_case": None, "sig": sig}, f)
+            json.dump({"property": spec.prop, "verif_seed": verif_seed, "tier": tier, "indices": idxs, "target_idx": v["idx"], "target_case": None, "sig": sig, "workers": workers}, f)
         env = dict(os.environ)
         env["PYTHONHASHSEED"] = "12345"
         env["VERIF_NO_REEXEC"] = "1"
@@ -752,7 +778,7 @@ def history_fallback(spec, verif_seed, tier, sig, v, budget_s=900.0, max_tests=6
     def gen(i):
         return spec.generate(rng_for(verif_seed, spec.sim, spec.prop, i), i, tier)
 
-    return [gen(i) for i in cur], gen(v["idx"]), len(indices), tests[0]
+    return [gen(i) for i in cur], gen(v["idx"]), len(indices), tests[0], list(cur)
 
 
 # --------------------------------------------------------------------------
@@ -887,11 +913,11 @@ def run_check(spec, tier, verif_seed, n_runs=None, workers=None, first_run=0):
             # runs of its worker process (state kept by the code under test)?
             print("note: signature %s does not reproduce from its case alone; re-creating the worker's earlier runs in fresh interpreters" % s)
             sys.stdout.flush()
-            hist = history_fallback(spec, verif_seed, tier, s, v)
+            hist = history_fallback(spec, verif_seed, tier, s, v, workers=workers)
             if hist is None:
                 print("HARNESS-NONDETERMINISM property=%s signature %s reproduces neither from its case nor from its process history" % (spec.prop, s))
                 return 3
-            hcases, target, full_len, ntests = hist
+            hcases, target, full_len, ntests, hidx = hist
             ojson = dict(v["outcome"])
             if hcases:
                 ojson["detail"] = (
@@ -903,7 +929,7 @@ def run_check(spec, tier, verif_seed, n_runs=None, workers=None, first_run=0):
                     "(the case as generated reproduces on its own in a fresh process; its in-process minimisation did not — the code under test keeps state between calls, so the replay file holds the un-minimised case)\n%s"
                     % ojson.get("detail", "")
                 )
-            path = write_replay(spec, verif_seed, v["idx"], target, ojson, minimised_from=full_len, history=hcases, tier=tier)
+            path = write_replay(spec, verif_seed, v["idx"], target, ojson, minimised_from=full_len, history=hcases, tier=tier, history_indices=hidx, prewarm_workers=workers)
             rc, txt = replay_in_fresh_interpreter(path)
             if rc != 1 or "VIOLATION property=%s" % spec.prop not in txt:
                 print(txt)
